@@ -92,6 +92,9 @@ def simple_family(draw, max_calls=3, with_metrics=None):
         if kind in OPS + ["cumsum", "cumint", "weighted"]:
             call["fn"] = kind if kind != "weighted" else draw(st.sampled_from(OPS + ["cumsum"]))
             call["to"] = draw(st.sampled_from([to, to, None]))
+            if call["to"] is not None and draw(st.sampled_from([False, False, True])):
+                # a mapping may leave an axis to its default shift by naming it with None
+                call["to"] = {n: (None if draw(st.booleans()) else p) for n, p in to.items()}
             call["boundary"] = _spell(draw, st.sampled_from(RULES), names)
             call["fill_value"] = _spell(draw, fills, names)
             if kind == "weighted":
